@@ -19,7 +19,7 @@ NOT_DECIDED = ("Logical entailment over all zones and NSEC subsets, and complete
 ASSUMPTIONS = ["FULL feature configuration (dnssec-ring)", "Name's Ord is RFC 4034 6.1 canonical order (C04)"]
 
 N = 'hickory_net::dnssec::'
-DIRECT = r"<slice::Iter<'a;T> as iter::Iterator>::find\(slice::iter\(arg5\),closure:dnssec::verify_nsec::\{closure#1\}\)"
+DIRECT = r"<Iter<'a;T> as Iterator>::find\(slice::iter\(arg5\),closure:dnssec::verify_nsec::\{closure#1\}\)"
 COVQ = r'dnssec::find_nsec_covering_record\(arg2,arg1\.name,arg5\)'
 WILD = r'Name::prepend_label\(.*,lit:"\*"\)'
 
@@ -65,7 +65,7 @@ def run(cx):
         cx.guard('C08.G1', wn, {
             'no-direct-match': rf'^!ok\({DIRECT}\)$',
             'qname-covered': rf'^ok\({COVQ}\)$',
-            'wildcard-not-covered-but-matched': r"^<slice::Iter<'a;T> as iter::Iterator>::any\(slice::iter\(arg5\),closure:dnssec::verify_nsec::\{closure#8\}\)$",
+            'wildcard-not-covered-but-matched': r"^<Iter<'a;T> as Iterator>::any\(slice::iter\(arg5\),closure:dnssec::verify_nsec::\{closure#8\}\)$",
             'rcode-NoError': r'^eq:ResponseCode\(ResponseCode::NoError,arg3\)$',
             'no-answer': r'^slice::is_empty\(arg4\)$'}, expect=1, fn=f)
     c8 = cx.fn('C08.G1', N + 'verify_nsec::{closure#8}')
